@@ -6,6 +6,7 @@ bytes from encode()/prettify(enc)/encode_contents() -> bytes.decode(enc) -> re-p
 """
 import codecs, copy, html, itertools, re, warnings
 from bs4 import BeautifulSoup
+from bs4.builder import HTMLParserTreeBuilder
 from bs4.element import (Tag, NavigableString, Comment, CData, Doctype, Declaration, ProcessingInstruction,
                          CharsetMetaAttributeValue, ContentMetaAttributeValue)
 
@@ -19,7 +20,7 @@ RULE = ("(a) the two substitute_encoding methods: every string of <=4 (quick) / 
         "values drawn from 14 pools covering the whole Unicode range (ASCII markup characters, Latin-1, C1 controls, "
         "European, RTL, CJK, kana, hangul, symbols, private use, specials and noncharacters, astral), both <meta> styles "
         "in 12 spellings, x 34 codecs (single-byte, multi-byte, stateful, UTF-16/32 with and without BOM) in several "
-        "name spellings x encode / prettify(enc) / encode_contents / decode / decode_contents / prettify() x indent "
+        "name spellings x {html.parser builder, an XML-flavoured subclass of it (is_xml = True: XML formatter registry, XML declaration from the BeautifulSoup object)} x encode / prettify(enc) / encode_contents / decode / decode_contents / prettify() x indent "
         "levels x {minimal, None} formatter x {default, strict} errors. Non-trivial = the document has a character the "
         "codec cannot represent or a <meta> declaration; distinct by (document, codec, entry point, arguments). "
         "Lone surrogates are outside the generator (not Unicode scalar values).")
@@ -232,7 +233,7 @@ def lower_check(ctx):
 
 
 def install_cases(ctx):
-    soup = BeautifulSoup("", "html.parser")
+    builders = {fl: make_soup("", fl).builder for fl in FLAVOURS}
     names = ["meta", "META", "p", "metadata"]
     charsets = [None, "", "utf8", "x-sjis"]
     contents = [None, "", "text/html; charset=x", "text/html"]
@@ -251,23 +252,24 @@ def install_cases(ctx):
             attrs.append(("id", "k"))
             if order:
                 attrs.reverse()
-            tag = Tag(None, soup.builder, nm, None, None, dict(attrs))
-            got = [(str(k), aval_canon(v)) for k, v in tag.attrs.items()]
-            cmds.append([8001, nm, [[k, aval_enc(v)] for k, v in attrs]])
-            case = {"name": nm, "attrs": [[k, v] for k, v in attrs]}
-            cases.append((case, got))
-            ctx.case(("install", nm, cs, ct, repr(he), order), nontrivial=(nm == "meta"))
-            # direct oracle (documented behaviour of the two styles)
-            d = dict(got)
-            if nm == "meta" and cs is not None and d["charset"][0] != "charset":
-                ctx.fail(case, "<meta charset> did not get its placeholder", got, "charset placeholder", tag="install")
-            if (nm == "meta" and cs is None and ct is not None and he is not None and
-                    any(x.strip() == x and x.lower() == "content-type" for x in ([he] if isinstance(he, str) else he))
-                    and d["content"][0] != "content"):
-                ctx.fail(case, "<meta http-equiv=content-type content> did not get its placeholder", got,
-                         "content placeholder", tag="install")
-            if nm != "meta" and any(v[0] in ("charset", "content") for v in d.values()):
-                ctx.fail(case, "placeholder installed on a non-meta tag", got, None, tag="install")
+            for flavour in FLAVOURS:
+                tag = Tag(None, builders[flavour], nm, None, None, dict(attrs))
+                got = [(str(k), aval_canon(v)) for k, v in tag.attrs.items()]
+                cmds.append([8001, nm, [[k, aval_enc(v)] for k, v in attrs]])
+                case = {"name": nm, "attrs": [[k, v] for k, v in attrs], "builder": flavour}
+                cases.append((case, got))
+                ctx.case(("install", nm, cs, ct, repr(he), order, flavour), nontrivial=(nm == "meta"))
+                # direct oracle (documented behaviour of the two styles)
+                d = dict(got)
+                if nm == "meta" and cs is not None and d["charset"][0] != "charset":
+                    ctx.fail(case, "<meta charset> did not get its placeholder", got, "charset placeholder", tag="install")
+                if (nm == "meta" and cs is None and ct is not None and he is not None and
+                        any(x.strip() == x and x.lower() == "content-type" for x in ([he] if isinstance(he, str) else he))
+                        and d["content"][0] != "content"):
+                    ctx.fail(case, "<meta http-equiv=content-type content> did not get its placeholder", got,
+                             "content placeholder", tag="install")
+                if nm != "meta" and any(v[0] in ("charset", "content") for v in d.values()):
+                    ctx.fail(case, "placeholder installed on a non-meta tag", got, None, tag="install")
     if ctx.build.model_ok:
         res = ctx.model.run(cmds)
         for (case, got), mv in zip(cases, res):
@@ -594,8 +596,45 @@ def build_impl(soup, d):
     return tag
 
 
-def build_doc(d):
-    soup = BeautifulSoup("", "html.parser")
+class XHTMLBuilder(HTMLParserTreeBuilder):
+    """an XML-flavoured html.parser builder (XHTML): a TreeBuilder subclass that declares is_xml = True. Its trees
+    use the XML formatter registry and the BeautifulSoup object writes an XML declaration; <meta> placeholders are
+    HTMLTreeBuilder's business and must be installed all the same."""
+    NAME = "c08-xhtml"
+    is_xml = True
+
+
+FLAVOURS = ("html", "xhtml")
+
+
+def make_soup(markup, flavour="html"):
+    with warnings.catch_warnings():
+        warnings.simplefilter("ignore")
+        if flavour == "xhtml":
+            return BeautifulSoup(markup, builder=XHTMLBuilder())
+        return BeautifulSoup(markup, "html.parser")
+
+
+def xmlize(d):
+    """a description fit for the XML flavour: the XML formatters know no CDATA-containing tags, which the model does
+    not cover, so script/style elements are renamed"""
+    if d[0] == "t":
+        return d
+    _, name, prefix, attrs, kids, inst = d
+    name = {"script": "code", "style": "samp"}.get(name, name)
+    return ("e", name, prefix, attrs, [xmlize(k) for k in kids], inst)
+
+
+def xml_declaration(evn):
+    """what BeautifulSoup.decode writes first for an XML-flavoured document (documented: the declaration names the
+    eventual encoding unless there is none or it is a python-specific one)"""
+    if evn is None or evn in PYSPECIFIC_USED:
+        return '<?xml version="1.0"?>\n'
+    return '<?xml version="1.0" encoding="%s"?>\n' % evn
+
+
+def build_doc(d, flavour="html"):
+    soup = make_soup("", flavour)
     for k in d[4]:
         soup.append(build_impl(soup, k))
     return soup
@@ -809,20 +848,23 @@ def desc_at(d, path):
     return d
 
 
-def doc_case(ctx, d, forms, route, encs, cmds, pend, corpus_tag=None):
+def doc_case(ctx, d, forms, route, encs, cmds, pend, corpus_tag=None, flavour="html"):
     rng = ctx.rng
+    if flavour == "xhtml":
+        d = xmlize(d)
     if route in ("parsed", "parsed-copy"):
         markup = write_markup(d)
-        soup = parse_str(markup)
+        soup = make_soup(markup, flavour)
         if strip_desc(describe(soup)) != strip_desc(d):
             ctx.count("parse_shape_mismatch")
             return
         if route == "parsed-copy":
             soup = copy.copy(soup)
     else:
-        soup = build_doc(d)
+        soup = build_doc(d, flavour)
         if route == "copy":
             soup = copy.copy(soup)
+    ctx.count("documents_" + flavour)
     chars = set()
     doc_chars(d, chars)
     paths = pick_paths(d, rng)
@@ -864,7 +906,8 @@ def doc_case(ctx, d, forms, route, encs, cmds, pend, corpus_tag=None):
                     mcmd = [8004, 2, mnode, enc, [] if indent is None else [indent], 0 if fm else 1, 1, tbl, bom]
                 case = {"route": route, "markup": write_markup(d) if route.startswith("parsed") else None, "doc": d, "path": path,
                         "entry": ep, "encoding": enc, "indent_level": indent, "formatter": fm, "errors": errs,
-                        "meta_forms": forms, "corpus": corpus_tag}
+                        "meta_forms": forms, "corpus": corpus_tag, "flavour": flavour,
+                        "xml_declaration": xml_declaration(enc) if (flavour == "xhtml" and not path) else None}
                 # ---------------- correspondence
                 if stateless:
                     cmds.append(mcmd)
@@ -885,7 +928,8 @@ def doc_case(ctx, d, forms, route, encs, cmds, pend, corpus_tag=None):
                 r = call(fn, ind, evn, "minimal")
                 cmds.append([8005, sub, mnode, [] if evn is None else [evn], [] if ind is None else [ind], 0])
                 pend.append(("str", {"route": route, "doc": d, "entry": fn.__name__, "eventual_encoding": evn,
-                                     "indent_level": ind}, r))
+                                     "indent_level": ind, "flavour": flavour,
+                                     "xml_declaration": xml_declaration(evn) if flavour == "xhtml" else None}, r))
                 ctx.case((repr(d), "str", evn, sub, ind), nontrivial=has_meta)
             if evn is None and has_meta:
                 # untouched when there is no target encoding
@@ -895,11 +939,12 @@ def doc_case(ctx, d, forms, route, encs, cmds, pend, corpus_tag=None):
                     a = desc_metas(d, [])
                     b = [(m.get("charset"), m.get("content")) for m in s2.find_all("meta")]
                     if a != [tuple(None if x is None else str(x) for x in t) for t in b]:
-                        ctx.fail({"route": route, "doc": d, "entry": "decode", "eventual_encoding": None},
+                        ctx.fail({"route": route, "doc": d, "entry": "decode", "eventual_encoding": None, "flavour": flavour},
                                  "meta declaration changed although no target encoding was given", b, a, tag="meta-untouched")
     r = call(soup.prettify)
     cmds.append([8005, 2, model_node(d, soup), [], [], 0])
-    pend.append(("str", {"route": route, "doc": d, "entry": "prettify()"}, r))
+    pend.append(("str", {"route": route, "doc": d, "entry": "prettify()", "flavour": flavour,
+                         "xml_declaration": xml_declaration("utf-8") if flavour == "xhtml" else None}, r))
 
 
 def oracle(ctx, case, soup, el, r, enc, info, unenc, orig_obs_root):
@@ -1045,14 +1090,20 @@ def finish_docs(ctx, cmds, pend):
     second, second_info = [], []
     for p, mv in zip(pend, res):
         kind, case, r = p[0], p[1], p[2]
+        decl = case.get("xml_declaration")
         if kind == "bytes":
             impl = list(r[1]) if r[0] == "ok" else r[1]
             m = mv[1] if (isinstance(mv, list) and mv and mv[0] == 1) else "UnicodeEncodeError"
+            if decl and isinstance(m, list):
+                nb = len(cinfo(case["encoding"])["bom"])
+                m = m[:nb] + list(decl.encode(case["encoding"])[nb:]) + m[nb:]
             if impl != m:
                 ctx.disagree("%s ~ Model.Encode.tag_%s" % (case["entry"], case["entry"]), case, _short(impl), _short(m))
         elif kind == "str":
             impl = r[1] if r[0] == "ok" else "EXC:" + r[1]
             m = "".join(map(chr, mv)) if isinstance(mv, list) else mv
+            if decl and isinstance(m, str):
+                m = decl + m
             if impl != m:
                 ctx.disagree("%s ~ Model.Encode.tag_decode" % case["entry"], case, impl, m)
         else:
@@ -1062,7 +1113,7 @@ def finish_docs(ctx, cmds, pend):
     if second:
         res2 = ctx.model.run(second)
         for (case, r, enc), mv in zip(second_info, res2):
-            m = "".join(map(chr, mv))
+            m = (case.get("xml_declaration") or "") + "".join(map(chr, mv))
             if case["errors"] == "strict":
                 continue
             if r[0] != "ok":
@@ -1158,7 +1209,8 @@ def load_corpus():
 def corpus(ctx, cmds, pend):
     for tag, d, forms, encs in load_corpus():
         for route in ("built", "parsed"):
-            doc_case(ctx, d, forms, route, encs, cmds, pend, corpus_tag=tag)
+            for flavour in FLAVOURS:
+                doc_case(ctx, d, forms, route, encs, cmds, pend, corpus_tag=tag, flavour=flavour)
 
 
 # ----------------------------------------------------------------------------------------- run
@@ -1179,7 +1231,7 @@ def documents(ctx):
                 encs.append(rng.choice(SPELLINGS.get(base, [base])))
         if rng.random() < 0.15:
             encs.append("ascii")
-        doc_case(ctx, d, forms, route, encs, cmds, pend)
+        doc_case(ctx, d, forms, route, encs, cmds, pend, flavour=rng.choices(FLAVOURS, weights=[3, 1])[0])
         if not sampled and forms and i > 3:
             ctx.sample({"document": write_markup(d)[:300], "route": route, "encodings": encs})
             sampled = True
@@ -1216,7 +1268,7 @@ def documents(ctx):
 
 def run(ctx):
     import time
-    steps = [subst_cases, install_cases, encode_cases, documents, reader_cases]
+    steps = [documents, subst_cases, install_cases, encode_cases, reader_cases]      # documents: the corpus runs first
     if not ctx.search_mode:
         steps.insert(0, lower_check)
     for fn in steps:
@@ -1263,7 +1315,9 @@ def replay(ctx, data):
     print("what:", f.get("what") or data.get("no_longer_checks"))
     if "doc" in case and case.get("entry") in ("encode", "prettify", "encode_contents"):
         d = _tuplify(case["doc"])
-        soup = parse_str(case["markup"]) if str(case.get("route")).startswith("parsed") and case.get("markup") else build_doc(d)
+        fl = case.get("flavour") or "html"
+        soup = make_soup(case["markup"], fl) if str(case.get("route")).startswith("parsed") and case.get("markup") else build_doc(d, fl)
+        print("builder flavour:", fl)
         if str(case.get("route")).endswith("copy"):
             soup = copy.copy(soup)
         el = find_path(soup, case.get("path") or [])
@@ -1286,6 +1340,16 @@ def replay(ctx, data):
                 print("auto-detected:", BeautifulSoup(r[1], "html.parser").original_encoding)
             except Exception as ex:          # noqa: BLE001
                 print("decode failed:", ex)
+        return 1
+    if "attrs" in case and "name" in case:
+        fl = case.get("builder") or "html"
+        attrs = {k: v for k, v in case["attrs"]}
+        tag = Tag(None, make_soup("", fl).builder, case["name"], None, None, attrs)
+        print("Tag(builder=%s builder, name=%r, attrs=%r) ->" % (fl, case["name"], attrs))
+        for k, v in tag.attrs.items():
+            print("   %s = %r  (%s)" % (k, v, type(v).__name__))
+        for enc in ("koi8-r", "utf-16"):
+            print("   encode(%r): %r" % (enc, call(tag.encode, enc)[1]))
         return 1
     if case.get("text_block"):
         enc, first = case["codec"], case["block_first"]
